@@ -6,7 +6,7 @@
    (finding C15-F2, now characterised in general) - and for two or more parts (C15_multi_part_round_trip: any number of parts, any body
    bytes as long as no body line is valid UTF-8 and contains the separator text, the condition under which the reader itself stops).
    Both domains are decidable predicates the model runner evaluates on every generated case. *)
-From Rws Require Import Str Utf8 Num Fs UrlParse RangeSpec Request GenMime Mime StaticRes GenConsts Forms Server RespParse RespDomain C15Proof C15Round C15Multi.
+From Rws Require Import Str Utf8 Num Unicase Fs UrlParse RangeSpec Request GenMime Mime StaticRes GenConsts Forms Server RespParse RespDomain C15Proof C15Round C15Multi.
 Open Scope N_scope.
 
 Theorem C15_single_part_round_trip : forall inst r, single_ok r = true ->
@@ -56,8 +56,8 @@ Proof. exact inst_loses_type. Qed.
 (* reject: an accepted status line has a registered code and that code's phrase; anything else is an error, for every input *)
 Theorem C15_status_line_shape : forall line v c rsn, parse_status_line line = Some (v, c, rsn) ->
   exists rest code, split_once (truncate_nl_cr line) [32] = Some (v, rest) /\ split_once rest [32] = Some (code, rsn) /\
-    mem (upper v) version_list = true /\ parse_i16 code = Some (false, c) /\
-    exists p, find (fun p => N.eqb (fst p) c) status_table = Some p /\ upper (snd p) = upper rsn.
+    mem (uupper v) version_list = true /\ parse_i16 code = Some (false, c) /\
+    exists p, find (fun p => N.eqb (fst p) c) status_table = Some p /\ uupper (snd p) = uupper rsn.
 Proof. exact status_line_shape. Qed.
 Theorem C15_reject_unknown_status : forall line v rest code rsn c,
   split_once (truncate_nl_cr line) [32] = Some (v, rest) -> split_once rest [32] = Some (code, rsn) -> parse_i16 code = Some (false, c) ->
@@ -65,7 +65,7 @@ Theorem C15_reject_unknown_status : forall line v rest code rsn c,
 Proof. exact reject_unknown_status. Qed.
 Theorem C15_reject_mismatched_phrase : forall line v rest code rsn c p,
   split_once (truncate_nl_cr line) [32] = Some (v, rest) -> split_once rest [32] = Some (code, rsn) -> parse_i16 code = Some (false, c) ->
-  find (fun p => N.eqb (fst p) c) status_table = Some p -> upper (snd p) <> upper rsn -> parse_status_line line = None.
+  find (fun p => N.eqb (fst p) c) status_table = Some p -> uupper (snd p) <> uupper rsn -> parse_status_line line = None.
 Proof. exact reject_mismatched_phrase. Qed.
 Theorem C15_parse_needs_status_line : forall input, parse_status_line (fst (split_line input)) = None -> response_parse input = PErr.
 Proof. exact parse_needs_status_line. Qed.
